@@ -982,6 +982,8 @@ class Engine:
             nv = V("dir", z3.Bool(fresh_name(base)))
         elif v.k in ("none", "obj", "py", "excv", "func"):
             nv = v
+        elif v.k == "dictv":
+            nv = fresh_of_sort(("opaque", "Dict"), base, facts)     # a literal dict changed by the loop: an unknown dict
         else:
             raise OutOfReach(f"havoc {v.k}")
         for f in facts:
@@ -2493,6 +2495,19 @@ class Engine:
             if not self.spec_mode and self.branch(recv.t[0], f"nonecall{getattr(n, 'lineno', 0) - self.x.lineno}"):
                 raise PyRaise("AttributeError")
             recv = recv.t[1]
+        if recv.k == "dictv" and meth == "get" and 1 <= len(n.args) <= 2 and not n.keywords:
+            key = self.ev(n.args[0])
+            dflt = self.ev(n.args[1]) if len(n.args) == 2 else NONE
+            if not recv.t:
+                return dflt                     # {}.get(k, d) is d for every key
+            ks = z3.simplify(key.t) if key.k in ("int", "str") else None
+            if ks is not None and (z3.is_int_value(ks) or z3.is_string_value(ks)):
+                kc = ks.as_long() if z3.is_int_value(ks) else ks.as_string()
+                for k_, v_ in recv.t:
+                    if k_ == kc:
+                        return v_
+                return dflt
+            raise OutOfReach(f"{self.c.key}: dict.get with a symbolic key on a non-empty literal dict")
         if recv.k == "obj":
             im = self.reg.class_inline(recv.cls, meth)
             if im is not None:
